@@ -14,6 +14,7 @@ def run(ctx):
     )
     V.v5_equations(ctx)
     V.v6_derived_constructors(ctx)
+    V.v5b_univariate_genf_refuses_statistics(ctx)
     from ..engines import sizecheck as SC
     SC.v9_equation_forms(ctx, 3 if ctx.tier == "quick" else 5)
     ctx.floor("V9", 10)
